@@ -512,7 +512,7 @@ def stage_a(ctx):
         else:
             cfgs.append((front, 'routes', consts(front, 5, ['a'], 2, 2, 4, ['r200', 'r403', 'nack'], [])))
         # a route declared while connected (one route before connecting, one later, two connections)
-        cfgs.append((front, 'late', consts(front, ctx.pick(5, 6), ['a'], 1, 2, ctx.pick(4, 5), ['r200', 'nack'], [], late=['z'],
+        cfgs.append((front, 'late', consts(front, ctx.pick(4, 5), ['a'], ctx.pick(0, 1), 2, ctx.pick(3, 4), ['r200', 'nack'], [], late=['z'],
                                              verbs=('register',))))
         # the wall clock may stand still while loop time passes
         cfgs.append((front, 'stall', consts(front, 2, ['a'], 0, 1, ctx.pick(1, 2), ['r200', 'r400'], [], stall=True)))
@@ -614,8 +614,8 @@ def run(ctx):
             stage_b(ctx, front, 'routes', consts(front, 3, ['a'], 1, 2, 2, ['r200', 'nack'], unk, has, verbs=('register',)), 1, 3,
                     max_paths=ctx.pick(300, 8000))
             # a route declared while connected: registered now, and once on the next connection
-            stage_b(ctx, front, 'late', consts(front, 4, ['a'], 0, 2, 3, ['r200'], unk, has, verbs=('register',), late=['z']), 0, 4,
-                    max_paths=ctx.pick(200, 4000))
+            stage_b(ctx, front, 'late', consts(front, ctx.pick(3, 4), ['a'], 0, 2, ctx.pick(2, 3), ['r200'], unk, has,
+                                               verbs=ctx.pick((), ('register',)), late=['z']), 0, ctx.pick(3, 4), max_paths=ctx.pick(200, 4000))
             # wall clock standing still while loop time passes
             stage_b(ctx, front, 'stall', consts(front, 2, ['a'], 0, 1, 1, ['r200'], unk, has, stall=True), 0, 2,
                     max_paths=ctx.pick(150, 2000))
